@@ -74,7 +74,7 @@ theorem c15_closed_inert {cfg : Cfg} {s : State} {t : Tid} (hcap : 1 ≤ cfg.buf
       some { s with log := inertEvents s t call ++ s.log, pol := inertPol s.pol call } :=
   closed_call_inert hc (closed_empty hcap h hc).1.store hidle call
 
-/-- **Fresh after Clear.**  See `clear_fresh`: at the point before the restart the restart step is
+/-- **FreshSt after Clear.**  See `clear_fresh`: at the point before the restart the restart step is
 enabled and yields a state with empty store / accounting / expiry index, `lastCleaned =
 cleanupBucket now`, zero metrics (when on), empty buffer, idle applier, not closed, and the
 `MaxCost` the cache had at drain start (capacity is kept); the other clients are still quiet. -/
@@ -82,20 +82,20 @@ theorem c15_clear_fresh {cfg : Cfg} {s0 s1 : State} {t : Tid} {c : Bool} {acts :
     (hr : Reach cfg s0) (hcap : 1 ≤ cfg.bufCap) (hpc0 : s0.cl t = .clrDrain c)
     (hq : ∀ t', t' ≠ t → (s0.cl t').quiet = true) (hns : ∀ a ∈ acts, a.isSpawn = false)
     (hrun : run cfg s0 acts = some s1) (hpc1 : s1.cl t = .clrRestart c) :
-    step cfg s1 (.client t .none) = some (stClrRestart s1 t c) ∧ Fresh cfg (stClrRestart s1 t c) ∧
+    step cfg s1 (.client t .none) = some (stClrRestart s1 t c) ∧ FreshSt cfg (stClrRestart s1 t c) ∧
       (stClrRestart s1 t c).pol.maxCost = s0.pol.maxCost ∧
       (∀ t', t' ≠ t → ((stClrRestart s1 t c).cl t').quiet = true) :=
   clear_fresh hr hcap hpc0 hq hns hrun hpc1
 
-/-- **`fresh_equiv`.**  A `Fresh` state with every client idle *is* the initial state of a cache
+/-- **`fresh_equiv`.**  A `FreshSt` state with every client idle *is* the initial state of a cache
 created with the current `MaxCost`, up to `closedMarkers / nextMarker / clock / log / ringPending`
 (and `met` when metrics are off), with `lastCleaned` the cleanup bucket of some instant. -/
-theorem c15_fresh_equiv {cfg : Cfg} {s : State} (hf : Fresh cfg s) (hidle : ∀ t, s.cl t = .idle) :
+theorem c15_fresh_equiv {cfg : Cfg} {s : State} (hf : FreshSt cfg s) (hidle : ∀ t, s.cl t = .idle) :
     s = freshOf cfg s ∧ ∃ now, (freshOf cfg s).em = (init { cfg with maxCost := s.pol.maxCost } now).em :=
   fresh_equiv hf hidle
 
 /-- every continuation of the cleared cache is a continuation of `freshOf` -/
-theorem c15_fresh_run {cfg : Cfg} {s : State} (hf : Fresh cfg s) (hidle : ∀ t, s.cl t = .idle)
+theorem c15_fresh_run {cfg : Cfg} {s : State} (hf : FreshSt cfg s) (hidle : ∀ t, s.cl t = .idle)
     (acts : List Action) : run cfg s acts = run cfg (freshOf cfg s) acts := by
   have h := (fresh_equiv hf hidle).1
   exact congrArg (fun x => run cfg x acts) h
@@ -134,7 +134,7 @@ theorem c15_clear_releases_values {cfg : Cfg} {s0 s1 : State} {t : Tid} {c : Boo
 
 /-- **Idempotence of Clear**: the states after two un-overlapped `Clear`s agree on every shared
 field except the sweep position `lastCleaned` (the clock moved). -/
-theorem c15_clear_idempotent {cfg : Cfg} {s s' : State} (h : Fresh cfg s) (h' : Fresh cfg s')
+theorem c15_clear_idempotent {cfg : Cfg} {s s' : State} (h : FreshSt cfg s) (h' : FreshSt cfg s')
     (hm : s'.pol.maxCost = s.pol.maxCost) :
     s'.store = s.store ∧ s'.pol = s.pol ∧ s'.em.buckets = s.em.buckets ∧
       (cfg.metricsOn = true → s'.met = s.met) ∧ s'.buf = s.buf ∧ s'.sendq = s.sendq ∧ s'.app = s.app ∧
